@@ -18,7 +18,15 @@ import (
 // X close the oldest unclosed request.
 const c24Alphabet = "WwFCX"
 
-func c24RunEnum(seq string, batchSize int) (sig, msg string) {
+// slabbed: the object slices are sub-slices (len < cap) of one slab, even
+// chunks first, then the odd ones, so that the spare capacity of an earlier
+// write covers the cells of a later one.
+func c24RunEnum(seq string, batchSize int, slabbed bool) (sig, msg string) {
+	var slab *c24Slab
+	if slabbed {
+		slab = c24NewSlab(len(seq)+1, 2)
+	}
+	nthWrite := 0
 	q := New[string](len(seq)+4, batchSize, 0)
 	defer c24CloseQueue(q)
 	var writes []*c24Write
@@ -85,7 +93,17 @@ func c24RunEnum(seq string, batchSize int) (sig, msg string) {
 			} else {
 				cw.objs = []string{fmt.Sprintf("o%da", i), fmt.Sprintf("o%db", i)}
 			}
-			s, err := q.Write(append([]string{}, cw.objs...), cw.ch)
+			objs := append([]string{}, cw.objs...)
+			if slab != nil {
+				half := (len(seq) + 2) / 2
+				c := 2 * nthWrite
+				if nthWrite >= half {
+					c = 2*(nthWrite-half) + 1
+				}
+				objs = slab.take(c, cw.objs)
+				nthWrite++
+			}
+			s, err := q.Write(objs, cw.ch)
 			if err != nil {
 				return "C24/write-error", err.Error()
 			}
@@ -143,7 +161,7 @@ func c24RunEnum(seq string, batchSize int) (sig, msg string) {
 func TestVerif_C24_Enum(t *testing.T) {
 	maxLen := vstat.Scale(6, 8)
 	rec := vstat.New(t, "C24", "enum",
-		fmt.Sprintf("bounded-exhaustive: every sequence of length 1..%d over {W write+channel, w write 2 objects, F flush, C consume, X close oldest request} for batch sizes 1,2,3 with the timer off, in lock-step on the real queue; invariants O1-O5 after every op and after a final flush; non-trivial = at least two writes and one of F/C/X; distinct by batch size + sequence", maxLen))
+		fmt.Sprintf("bounded-exhaustive: every sequence of length 1..%d over {W write+channel, w write 2 objects, F flush, C consume, X close oldest request} for batch sizes 1,2,3 with the timer off, in lock-step on the real queue, each once with freshly allocated object slices and (>=3 writes) once with slices carved, len<cap, out of one shared slab with even chunks before odd ones; invariants O1-O5 after every op and after a final flush; non-trivial = at least two writes and one of F/C/X; distinct by batch size + sequence", maxLen))
 	failed := false
 	var walk func(prefix []byte)
 	walk = func(prefix []byte) {
@@ -166,10 +184,15 @@ func TestVerif_C24_Enum(t *testing.T) {
 				if len(seq) == maxLen {
 					rec.Sample(canon)
 				}
-				if sig, msg := c24RunEnum(seq, bs); sig != "" {
-					failed = true
-					t.Errorf("%s", rec.Violation(sig, "%s :: %s", msg, canon))
-					return
+				for _, slabbed := range []bool{false, true} {
+					if slabbed && nw < 3 {
+						continue // needs three writes to differ from the plain run
+					}
+					if sig, msg := c24RunEnum(seq, bs, slabbed); sig != "" {
+						failed = true
+						t.Errorf("%s", rec.Violation(sig, "%s :: %s slab=%v", msg, canon, slabbed))
+						return
+					}
 				}
 			}
 		}
